@@ -13,6 +13,9 @@ func stream(sub, where, sel string) model.Op {
 	return model.Op{K: "stream", Sub: sub, Tgt: where, Sel: sel}
 }
 func pullW(sub string, max int) model.Op { return model.Op{K: "pull", Sub: sub, Max: max, Tgt: "wait"} }
+func pullWaitPub(sub, topic string, d time.Duration) model.Op {
+	return model.Op{K: "pullWaitPub", Sub: sub, Topic: topic, Max: 10, D: d}
+}
 func pullAbandon(sub string) model.Op { return model.Op{K: "pull", Sub: sub, Max: 10, Tgt: "abandon"} }
 func reconfig(sub, what string) model.Op { return model.Op{K: "reconfig", Sub: sub, Tgt: what} }
 func snap(sub, name string) model.Op     { return model.Op{K: "snap", Sub: sub, Name: name} }
@@ -376,6 +379,22 @@ func init() {
 					{Name: "SD", Topic: "TD"},
 				}},
 				Alphabet: alpha(delTopic("TD"), mkTopic("TD"), delSub("SD"), mkSub("SD"), pull("SD", 10)),
+			},
+			&hist.Scenario{
+				// two source subscriptions give up on the SAME message into one dead-letter
+				// topic: each retirement forwards, whatever the subscriber still holds
+				ID: "C06/two-sources-one-deadletter-topic", Prop: "C06", Depth: d(tier, 6, 7), Drain: true,
+				Cfg: model.Cfg{Topics: []string{"T0", "TD"}, Subs: []model.SubCfg{
+					{Name: "S0", Topic: "T0", DLTopic: "TD", MaxAttempts: 1},
+					{Name: "S1", Topic: "T0", DLTopic: "TD", MaxAttempts: 1},
+					{Name: "SD", Topic: "TD"},
+				}},
+				Alphabet: []model.Op{
+					pub1("T0", "", 0),
+					pull("S0", 10), pull("S1", 10), pull("SD", 10),
+					nack("S0", "all"), nack("S1", "all"), ack("SD", "oldest"), ack("SD", "all"),
+					sweep(), tick("lease+"),
+				},
 			},
 			&hist.Scenario{
 				// retention ends while the last attempt's lease has lapsed and before
